@@ -5,9 +5,9 @@
 From Dastard Require Import Common.ZX C06.Model C20.Model.
 
 (* the events of one START...STOP span, in order *)
-Record span := { sp_ext : list Z; sp_drop : list (Z * Z); sp_labels : list (list Z) }.
+Record span := { sp_ext : list Z; sp_drop : list (Z * Z); sp_labels : list sline }.
 Definition empty_span : span := {| sp_ext := []; sp_drop := []; sp_labels := [] |}.
-Definition add_label (l : list Z) (s : span) : span :=
+Definition add_label (l : sline) (s : span) : span :=
   {| sp_ext := sp_ext s; sp_drop := sp_drop s; sp_labels := sp_labels s ++ [l] |}.
 Definition add_block (ext : list Z) (drops first : Z) (s : span) : span :=
   {| sp_ext := sp_ext s ++ ext;
@@ -20,15 +20,16 @@ Definition opt_nonempty {A} (l : list A) : option (list A) := match l with [] =>
 Definition expected (s : span) : files3 :=
   {| x_ext := opt_nonempty (sp_ext s);          (* header ++ every count of the span's blocks, in order *)
      x_drop := opt_nonempty (sp_drop s);        (* header ++ one line per block with drops > 0; absent if none *)
-     x_state := Some (sSTART :: sp_labels s ++ [sSTOP]);
+     x_state := Some ((0, sSTART) :: sp_labels s ++ [(0, sSTOP)]);
      x_fmt := true |}.
 
 Definition oeqb {A} (e : A -> A -> bool) (a b : option A) : bool :=
   match a, b with Some x, Some y => e x y | None, None => true | _, _ => false end.
 Definition zz_eqb (a b : Z * Z) : bool := (fst a =? fst b) && (snd a =? snd b).
+Definition sline_eqb (a b : sline) : bool := (fst a =? fst b) && zlist_eqb (snd a) (snd b).
 Definition files_eqb (a b : files3) : bool :=
   oeqb zlist_eqb (x_ext a) (x_ext b) && oeqb (list_eqb zz_eqb) (x_drop a) (x_drop b) &&
-  oeqb (list_eqb zlist_eqb) (x_state a) (x_state b) && Bool.eqb (x_fmt a) (x_fmt b).
+  oeqb (list_eqb sline_eqb) (x_state a) (x_state b) && Bool.eqb (x_fmt a) (x_fmt b).
 
 Definition is_none {A} (o : option A) : bool := match o with None => true | Some _ => false end.
 
@@ -52,7 +53,7 @@ Definition check_step (k : option span) (o : op20) (b : obs20) : option (option 
           if negb (is_none files) then None
           else match unpause_arg (rq_str r) with
                | ULabel l => if ok then match k with
-                                        | Some s => Some (Some (add_label l s))
+                                        | Some s => Some (Some (add_label (0, l) s))
                                         | None => None      (* accepted label with no file to receive it *)
                                         end
                              else Some k
@@ -63,9 +64,16 @@ Definition check_step (k : option span) (o : op20) (b : obs20) : option (option 
   | Req (LABEL l), OR ok files closed =>
       if negb (is_none files) then None
       else if ok then match k with
-                      | Some s => Some (Some (add_label l s))
+                      | Some s => Some (Some (add_label (0, l) s))
                       | None => None
                       end
+      else Some k
+  | TLABEL off l, OT ok =>
+      (* an accepted label request adds its line, carrying the time stamp it was given *)
+      if ok then match k with
+                 | Some s => Some (Some (add_label (off, l) s))
+                 | None => None
+                 end
       else Some k
   | Req (PUB _ _), OP => Some k
   | BLK ext drops first, OB err =>
@@ -97,12 +105,13 @@ Definition track_step (k : option span) (o : op20) (b : obs20) : option span :=
       | KStart => if ok then Some empty_span else k
       | KStop => if ok then None else k
       | KUnpause => match unpause_arg (rq_str r) with
-                    | ULabel l => if ok then option_map (add_label l) k else k
+                    | ULabel l => if ok then option_map (add_label (0, l)) k else k
                     | _ => k
                     end
       | _ => k
       end
-  | Req (LABEL l), OR ok _ _ => if ok then option_map (add_label l) k else k
+  | Req (LABEL l), OR ok _ _ => if ok then option_map (add_label (0, l)) k else k
+  | TLABEL off l, OT ok => if ok then option_map (add_label (off, l)) k else k
   | BLK ext drops first, OB _ => option_map (add_block ext drops first) k
   | _, _ => k
   end.
